@@ -78,3 +78,12 @@ prop('C11', rules=['gate'], take=['C11.gate', 'C11.type'],
      floors={'gate-blocking:back:process_event_internal': 1, 'gate-blocking:back11:process_event_internal': 1, 'gate-blocking:backmp11:process_event_internal': 1,
              'gate-blocking:backmp11:process_completion_transition': 1, 'gate-helper:back': 1, 'gate-helper:back11': 1},
      explanation='Blocking gate: in process_event_internal (3 back-ends) and process_completion_transition every path reaches the terminate / interrupt test before any flag access, queue operation, deferral or dispatch, and the "blocked" outcome returns without any of them; the back/back11 helper returns true exactly for terminate or (interrupted and not end-interrupt) and looks the end-interrupt flag up for the decayed event type; machines with blocking states (front-end internal_flag_list) use the real test.')
+
+prop('C15', rules=['copyser', 'copymp11', 'wiring'], take=['C15.fields', 'C15.pool', 'C15.ctor', 'C15.this', 'C07.wiring'],
+     floors={'do_copy:back': 1, 'do_copy:back11': 1, 'copy-entry:back:ctor': 1, 'copy-entry:back:assign': 1, 'copy-entry:back11:ctor': 1, 'copy-entry:back11:assign': 1,
+             'non_propagating:copy_assign': 1, 'pool-class:deferred_event': 1, 'pool-class:event_occurrence': 1, 'mp11-copy-ctor:copy_ctor': 1, 'mp11-copy-ctor:move_ctor': 1,
+             'this-capture:back': 1, 'this-capture:back11': 1},
+     explanation='Field coverage of copies: every data member of the back/back11 machine is assigned in do_copy or listed (with reason) as rebuilt; copy constructor and assignment go through do_copy and re-bind the copied states; backmp11 copy/move constructors delegate to the default constructor (wiring) and assign; non_propagating does not propagate the root pointer; pooled occurrences hold no machine pointer/reference and the event by value. Aliasing: a callable capturing the machine address is stored in a queue that do_copy copies (C15.this, genuine defect D5, recorded as known finding).')
+prop('C16', rules=['copyser'], take=['C16.fields'],
+     floors={'serialize:back': 1, 'serialize:back11': 1, 'serialize_state:back': 1, 'serialize_state:back11': 1, 'serialize:history:NoHistoryImpl': 1, 'serialize:history:ShallowHistoryImpl': 1},
+     explanation='Field coverage of serialization: serialize() archives the front-end base object and every data member of the machine except the documented unserialisable ones (queues, visitors, container pointer), each history policy archives all its members, serialize_state archives exactly the composite and do_serialize states. One serialize() serves both directions (Boost.Serialization operator&). Round-trip behaviour is not decided.')
